@@ -17,7 +17,7 @@
 (* has no stopping invariant; Trace_Admission_strict.cfg stops at the      *)
 (* first one with INVARIANT NoViolation and shows the state).              *)
 (* Several traces are concatenated; an "Init" line starts a new one        *)
-(* ("Reinit": same pool and client address, another capacity).             *)
+(* ("Reinit": same pool, the capacity / client address given).                *)
 (***************************************************************************)
 EXTENDS Admission, Json
 
@@ -30,8 +30,9 @@ NoCt == [sw |-> [out |-> FALSE, inc |-> FALSE, trk |-> FALSE], self |-> <<NoIp, 
 Trace == ndJsonDeserialize("trace.ndjson")
 Ev == Trace[l]
 
-QcOf(e) == [cap |-> e.cap, port |-> e.port, cip |-> e.cip, bl |-> e.bl, pool |-> e.pool]
-QOf(e)  == {[a |-> x[1], s |-> x[2]] : x \in SeqSet(e.q)}
+QcOf(e) == [cap |-> e.cap, port |-> e.port, cip |-> e.cip, bl |-> e.bl, pool |-> e.pool, moved |-> FALSE]
+QOf(e)  == {[a |-> x[1], s |-> x[2], p |-> <<x[3], x[4]>>] : x \in SeqSet(e.q)}
+WithPrios(pool, prios) == [i \in 1 .. Len(pool) |-> [pool[i] EXCEPT !.prio = prios[i]]]
 
 TraceInit ==
     /\ l = 2 /\ viol = "" /\ ct = NoCt
@@ -51,7 +52,8 @@ TrReset ==
 
 TrReinit ==
     /\ Ev.op = "Reinit"
-    /\ rules' = {} /\ lines' = <<>> /\ qc' = [qc EXCEPT !.cap = Ev.cap] /\ q' = {} /\ out' = NoOut
+    /\ rules' = {} /\ lines' = <<>> /\ q' = {} /\ out' = NoOut
+    /\ qc' = [qc EXCEPT !.cap = Ev.cap, !.cip = Ev.cip, !.moved = FALSE, !.pool = WithPrios(qc.pool, Ev.prios)]
     /\ Step("")
 
 TrReload ==
@@ -100,6 +102,13 @@ TrPop ==
     /\ out' = [a |-> Ev.r, s |-> Ev.s]
     /\ QStep(PopViol(Ev.r, Ev.s, QOf(Ev)))
 
+TrSetCip ==
+    /\ Ev.op = "SetCip"
+    /\ SetCipUpdate(Ev.cip, Ev.prios)
+    /\ q' = QOf(Ev) /\ out' = out
+    /\ UNCHANGED <<rules, lines>>
+    /\ Step(IF SetCipViol(QOf(Ev)) # "" THEN SetCipViol(QOf(Ev)) ELSE ViewViol(Ev.len, Ev.ls, QOf(Ev)))
+
 TrQReset ==
     /\ Ev.op = "Reset"
     /\ out' = NoOut
@@ -140,7 +149,7 @@ TrCNote  == Ev.op \in {"CNote", "CEnd"} /\ UNCHANGED <<vars, ct>> /\ StepC("")
 TraceNext ==
     /\ l <= Len(Trace)
     /\ \/ TrReset \/ TrReinit \/ TrReload \/ TrQuery \/ TrResolve \/ TrPrio \/ TrInfo
-       \/ TrPush \/ TrPop \/ TrQReset \/ TrPanic
+       \/ TrPush \/ TrPop \/ TrSetCip \/ TrQReset \/ TrPanic
        \/ TrCInit \/ TrCSelf \/ TrCConn \/ TrCDisc \/ TrCBan \/ TrCDial \/ TrCAccept \/ TrCAnnounce \/ TrCWebseed \/ TrCNote
 
 TraceSpec == TraceInit /\ [][TraceNext]_tvars
